@@ -99,8 +99,90 @@ pub fn mix(rng: &mut Rng, n: usize, count: usize) -> Vec<(String, Vec<u8>)> {
             out.push(("bytewalk".into(), byte_walk(n, rng.below(n.max(1)), rng.next() as u8 | 1)));
         }
     }
+    // the rest: half uniformly random, half structured-random (value classes that uniform data almost never hits)
+    let mut k = 0;
     while out.len() < count {
-        out.push(("random".into(), rng.bytes(n)));
+        if k % 2 == 0 || n == 0 {
+            out.push(("random".into(), rng.bytes(n)));
+        } else {
+            out.push(structured(rng, n));
+        }
+        k += 1;
     }
     out
+}
+
+/// Structured-random values: repeated words (equal adjacent words), runs of 0xFF / 0x00 (carries out of narrow
+/// lanes, all-ones sub-words), sparse and dense patterns, word extremes in a random lane.
+pub fn structured(rng: &mut Rng, n: usize) -> (String, Vec<u8>) {
+    let mut v = rng.bytes(n);
+    match rng.below(8) {
+        0 | 1 => {
+            // a random w-byte word repeated
+            let w = [2usize, 4, 8][rng.below(3)].min(n.max(1));
+            let word = rng.bytes(w);
+            for i in 0..n {
+                v[i] = word[i % w];
+            }
+            ("repword".into(), v)
+        }
+        2 => {
+            // random bytes with a run of 0xFF
+            let len = 1 + rng.below(n.max(1));
+            let start = rng.below(n - len + 1);
+            for b in v.iter_mut().skip(start).take(len) {
+                *b = 0xFF;
+            }
+            ("ffrun".into(), v)
+        }
+        3 => {
+            let len = 1 + rng.below(n.max(1));
+            let start = rng.below(n - len + 1);
+            for b in v.iter_mut().skip(start).take(len) {
+                *b = 0;
+            }
+            ("zerorun".into(), v)
+        }
+        4 => {
+            // mostly zero
+            let mut z = vec![0u8; n];
+            for _ in 0..1 + rng.below(2) {
+                z[rng.below(n.max(1))] = rng.next() as u8;
+            }
+            ("sparse".into(), z)
+        }
+        5 => {
+            let mut z = vec![0xFFu8; n];
+            for _ in 0..1 + rng.below(2) {
+                z[rng.below(n.max(1))] = rng.next() as u8;
+            }
+            ("dense".into(), z)
+        }
+        6 => {
+            // two equal adjacent words somewhere, rest random
+            let w = [2usize, 4, 8][rng.below(3)];
+            if n >= 2 * w {
+                let at = rng.below(n / w - 1) * w;
+                let (a, b) = v.split_at_mut(at + w);
+                b[..w].copy_from_slice(&a[at..at + w]);
+            }
+            ("adjeq".into(), v)
+        }
+        _ => {
+            // a word extreme (0x80.., 0x7f.., 0x00..01, 0xff..fe) in a random aligned lane, either endianness
+            let w = [2usize, 4, 8][rng.below(3)];
+            if n >= w {
+                let at = rng.below(n / w) * w;
+                let pat: Vec<u8> = match rng.below(4) {
+                    0 => { let mut p = vec![0u8; w]; p[0] = 0x80; p }
+                    1 => { let mut p = vec![0xFFu8; w]; p[0] = 0x7F; p }
+                    2 => { let mut p = vec![0u8; w]; p[w - 1] = 1; p }
+                    _ => { let mut p = vec![0xFFu8; w]; p[w - 1] = 0xFE; p }
+                };
+                let pat: Vec<u8> = if rng.below(2) == 0 { pat } else { pat.into_iter().rev().collect() };
+                v[at..at + w].copy_from_slice(&pat);
+            }
+            ("wordext".into(), v)
+        }
+    }
 }
